@@ -180,6 +180,8 @@ returns satisfies the invariant; and every `solve()` on an object satisfying the
 and nothing else (no `.err`, no other `.panic`: every index read in range, every assert of the
 nonsymmetric code paths satisfied, the barrier back-tracking within its 50 contractions, the pass
 budget not exhausted).
+(`ns_no_panic_by_cone_kind`: the first site needs an exponential cone in the problem, the second a
+nonsymmetric cone; `ns_no_panic_symmetric`: none ⇒ no exception.)
 NOT PROVED (and not provable at class [S]): that the two remaining sites are unreachable.  The first
 needs floating-point reasoning about `1 − s₁/s₂ − log(s₂/s₃)` on the points `step_length` accepted;
 the second is a termination statement about `α ← step·α` until `α < α_min`, false for a NaN `α`. -/
@@ -205,6 +207,56 @@ theorem ns_solve_panics_only_numerically {P : Csc α} {q : Array α} {A : Csc α
       ∧ (∀ r, S.solve st = .ok r → SolverNS.SolverInvN r.S) := by
   have hs := ((ns_no_panic hin hn hperm hpiv hf).2 S h).2
   exact ⟨fun site hp => hs.panic_site hp, fun k => hs.not_err k, fun r hr => hs.of_ok hr⟩
+
+/-- [S] `C04.ns_no_panic_by_cone_kind` (sharp form of `ns_no_panic`): **which cones a problem must
+contain for a numerical-domain site to be reachable.**  For a solver object built by `new` on
+well-formed input, a panic of `solve()` is
+* `"argument not in supported range"` (`_wright_omega`) — and then the USER's cone list contains an
+  exponential cone, or
+* `"backtrack_search: fuel"` — and then the user's cone list contains an exponential, power or
+  generalised power cone.
+Every assert / index / `unreachable!()` of the power and generalised power cone code paths is
+satisfied unconditionally; of the exponential cone's everything but `_wright_omega`'s range check. -/
+theorem ns_no_panic_by_cone_kind {P : Csc α} {q : Array α} {A : Csc α} {b : Array α}
+    {cones : List (ConeT α)} {st : SolverNS.Settings α} {perm : Array Nat}
+    (hin : SolverNS.InputOKN P q A b cones) (hn : 0 < P.n)
+    (hperm : SolverNS.PermForN P q A b cones st perm) (hpiv : PivotOK st.lin) (hf : FmaxOK α)
+    {S : SolverNS.Solver α} (h : SolverNS.Solver.new P q A b cones st perm = .ok S) {site : String}
+    (hp : S.solve st = .error (.panic site)) :
+    (site = "argument not in supported range" ∧ SolverNS.userHasExp cones)
+      ∨ (site = "backtrack_search: fuel" ∧ SolverNS.userHasNonsym cones) := by
+  have hk := SolverNS.new_cone_kinds h
+  rcases (SolverNS.solve_okOrFor hf st (SolverNS.solverNew_invQ hin hn hperm hpiv h)).panic_site hp with h1 | h2
+  · exact Or.inl ⟨h1.1, hk.1 h1.2⟩
+  · exact Or.inr ⟨h2.1, hk.2 h2.2⟩
+
+/-- [S] `C04.ns_no_panic_symmetric`: a problem whose cones are all symmetric (zero / nonnegative /
+second-order), run through the model WITH nonsymmetric cones, returns from every `solve()` — no
+exception at all: on such problems the extended model proves what `C04.full_no_panic` proves for the
+symmetric model. -/
+theorem ns_no_panic_symmetric {P : Csc α} {q : Array α} {A : Csc α} {b : Array α}
+    {cones : List (ConeT α)} {st : SolverNS.Settings α} {perm : Array Nat}
+    (hin : SolverNS.InputOKN P q A b cones) (hn : 0 < P.n)
+    (hperm : SolverNS.PermForN P q A b cones st perm) (hpiv : PivotOK st.lin) (hf : FmaxOK α)
+    (hsym : ¬ SolverNS.userHasNonsym cones)
+    {S : SolverNS.Solver α} (h : SolverNS.Solver.new P q A b cones st perm = .ok S) :
+    ∃ r, S.solve st = .ok r ∧ SolverNS.SolverInvN r.S := by
+  obtain ⟨r, hr, hI⟩ := SolverNS.solve_ok_symmetric hf st (SolverNS.solverNew_invQ hin hn hperm hpiv h)
+    (fun hns => hsym ((SolverNS.new_cone_kinds h).2 hns))
+  exact ⟨r, hr, hI⟩
+
+/-- [S] `C04.ns_no_panic_without_exp`: without an exponential cone in the user's list (power and
+generalised power cones allowed) the only way `solve()` does not return is the exhaustion of the
+model's fuel for the unbounded `loop` of `backtrack_search` (non-termination in the code). -/
+theorem ns_no_panic_without_exp {P : Csc α} {q : Array α} {A : Csc α} {b : Array α}
+    {cones : List (ConeT α)} {st : SolverNS.Settings α} {perm : Array Nat}
+    (hin : SolverNS.InputOKN P q A b cones) (hn : 0 < P.n)
+    (hperm : SolverNS.PermForN P q A b cones st perm) (hpiv : PivotOK st.lin) (hf : FmaxOK α)
+    (hne : ¬ SolverNS.userHasExp cones)
+    {S : SolverNS.Solver α} (h : SolverNS.Solver.new P q A b cones st perm = .ok S) :
+    SolverNS.OkOr (fun s => s = "backtrack_search: fuel") (S.solve st) (fun r => SolverNS.SolverInvN r.S) :=
+  SolverNS.solve_okOr_noExp hf st (SolverNS.solverNew_invQ hin hn hperm hpiv h)
+    (fun he => hne ((SolverNS.new_cone_kinds h).1 he))
 
 /-- [S] `C04.ns_solve_iterate`: any number of successive `solve()` calls on one solver object: each
 of them is covered (the invariant is re-established by every successful call) -/
@@ -245,6 +297,16 @@ example : Clarabel.Solver.FmaxOK Int := exFmaxOK
 numerical-domain site is hit on this run) and the invariant holds on the object it leaves -/
 example : ∃ S r, newSolver 3 = .ok S ∧ SolverNS.SolverInvN S ∧ S.solve (st 3) = .ok r ∧ SolverNS.SolverInvN r.S :=
   exSolve_inv
+
+/-- the cone-kind hypotheses of `ns_no_panic_symmetric` / `ns_no_panic_without_exp` are satisfiable -/
+example : ¬ SolverNS.userHasNonsym ([.nonneg 1, .soc 3, .zero 2] : List (ConeT Int)) := by
+  rintro ⟨c, hc, h⟩
+  simp only [List.mem_cons, List.not_mem_nil, or_false] at hc
+  rcases hc with rfl | rfl | rfl <;> rcases h with h | ⟨a, h⟩ | ⟨al, d2, h⟩ <;> cases h
+example : ¬ SolverNS.userHasExp ([.nonneg 1, .pow 2, .genpow #[1] 1] : List (ConeT Int)) := by
+  intro h
+  simp only [SolverNS.userHasExp, List.mem_cons, List.not_mem_nil, or_false] at h
+  rcases h with h | h | h <;> cases h
 
 end NSExamples
 
